@@ -709,7 +709,7 @@ func (o *orgCtx) org(v ssa.Value) string {
 	if v == nil {
 		return "<nil>"
 	}
-	if o.depth > 14 {
+	if o.depth > 24 {
 		return "…"
 	}
 	o.depth++
@@ -1445,4 +1445,39 @@ func evalLenCond(v ssa.Value, isX func(ssa.Value) bool, n int64) (bool, bool) {
 		return evalCmp(bo.Op, a, b), true
 	}
 	return false, false
+}
+
+// rangedLiteralElems: if v is the element variable of a range loop over a slice literal (a load from the literal's
+// backing array at the range index), the values stored into the literal; otherwise v itself.
+func rangedLiteralElems(v ssa.Value, at ssa.Instruction) []ssa.Value {
+	raw := v
+	if u, isU := raw.(*ssa.UnOp); !isU || u.Op != token.MUL {
+		raw = resolve(v, at)
+	} else if _, isIA := u.X.(*ssa.IndexAddr); !isIA {
+		raw = resolve(v, at)
+	}
+	if x, ok := raw.(*ssa.UnOp); ok {
+		if ia, ok := x.X.(*ssa.IndexAddr); ok && wholeSliceIndex(ia) {
+			base := ia.X
+			if sl, isSl := base.(*ssa.Slice); isSl {
+				base = sl.X
+			}
+			if al, ok := addrRoot(base).(*ssa.Alloc); ok {
+				var vals []ssa.Value
+				for _, r := range *al.Referrers() {
+					if ia2, ok := r.(*ssa.IndexAddr); ok {
+						for _, rr := range *ia2.Referrers() {
+							if st, ok := rr.(*ssa.Store); ok {
+								vals = append(vals, resolve(st.Val, st))
+							}
+						}
+					}
+				}
+				if len(vals) > 0 {
+					return vals
+				}
+			}
+		}
+	}
+	return []ssa.Value{raw}
 }
